@@ -1371,7 +1371,7 @@ class QvmCpu:
         s = self.pop(CellType.STRING)
         if n < 0:
             self.trap(TrapCode.INVALID_OPERAND_VALUE)
-        self.push(CellType.STRING, s[-n:])
+        self.push(CellType.STRING, s[-n:] if n > 0 else '')
 
     def _exec_sub(self):
         b = self.pop()
